@@ -934,11 +934,16 @@ class DateTime(datetime.datetime, Date):
         if day_of_week < WeekDay.MONDAY or day_of_week > WeekDay.SUNDAY:
             raise ValueError("Invalid day of week")
 
-        dt = self if keep_time else self.start_of("day")
+        start = self if keep_time else self.start_of("day")
 
-        dt = dt.add(days=1)
-        while dt.day_of_week != day_of_week:
-            dt = dt.add(days=1)
+        # Count the days from the starting point (see previous()): stepping
+        # from the last candidate keeps the 01:00 a skipped midnight was
+        # normalized to for all the following days.
+        days = 1
+        dt = start.add(days=days)
+        while dt.day_of_week != day_of_week or dt <= start:
+            days += 1
+            dt = start.add(days=days)
 
         return dt
 
